@@ -217,8 +217,41 @@ func registerStd(e *Engine) {
 		return a[0]
 	})
 	R("encoding/json.Marshal", func(fr *frame, a []value) value { return tuple{[]value{}, iface{}} })
-	R("github.com/tendermint/tendermint/libs/json.Marshal", func(fr *frame, a []value) value { return tuple{[]value{}, iface{}} })
-	R("github.com/tendermint/tendermint/libs/json.MarshalIndent", func(fr *frame, a []value) value { return tuple{[]value{}, iface{}} })
+	// tmjson as a field box (same model as rlp): faithful on exported fields
+	tmMarshal := func(fr *frame, a []value) (res value) {
+		it := a[0].(iface)
+		if it.t == nil {
+			return tuple{concreteBytes([]byte("null")), iface{}}
+		}
+		defer func() {
+			if r := recover(); r != nil {
+				if ab, ok := r.(abortPath); ok && ab.kind == "unsupported" {
+					// values the box cannot hold (maps ...) only occur in tags
+					res = tuple{[]value{uint8('?')}, iface{}}
+					return
+				}
+				panic(r)
+			}
+		}()
+		return tuple{[]value{rlpBox{it.t, rlpSnapshot(it.t, it.v)}}, iface{}}
+	}
+	R("github.com/tendermint/tendermint/libs/json.Marshal", tmMarshal)
+	R("github.com/tendermint/tendermint/libs/json.MarshalIndent", tmMarshal)
+	R("github.com/tendermint/tendermint/libs/json.Unmarshal", func(fr *frame, a []value) value {
+		b := a[0].([]value)
+		it := a[1].(iface)
+		if len(b) == 1 {
+			if box, ok := b[0].(rlpBox); ok {
+				pt, ok := it.t.Underlying().(*types.Pointer)
+				if !ok {
+					return makeError(fr, "json: Unmarshal(non-pointer)")
+				}
+				jsonAssign(pt.Elem(), derefPtr(it.v, "tmjson.Unmarshal target"), box.T, box.V)
+				return iface{}
+			}
+		}
+		panic(abortPath{"unsupported", "tmjson.Unmarshal of raw (non-boxed) bytes"})
+	})
 
 	// ---- bytes / strings helpers implemented natively on concrete data
 	R("bytes.Equal", func(fr *frame, a []value) value {
